@@ -412,3 +412,30 @@ package node
 //@   invariant true
 //@   loop 2
 //@   invariant true
+
+//@ property C11
+// ---- multi-key write commands (del k1 k2 ..., plset k v k v ...): merge validators and their apply handlers ----
+//@ spec shape_wrapWriteMergeCommandKK(cmd redcon.Command) bool = len(cmd.Args) >= 2 && len(cmd.Args) - 1 <= common.MAX_BATCH_NUM
+//@ spec shape_wrapWriteMergeCommandKVKV(cmd redcon.Command) bool = len(cmd.Args) >= 3 && (len(cmd.Args) - 1) % 2 == 0 && (len(cmd.Args) - 1) / 2 <= common.MAX_BATCH_NUM
+//@ func (nd *KVNode) RedisPropose(buf []byte) (interface{}, error)
+//@   trusted proposes the serialised command to raft and waits for the result (I/O)
+//@   ensures ghost(proposals, nd) == old(ghost(proposals, nd)) + 1
+//@   modifies ghost(proposals, nd)
+//@ func buildCommand(args [][]byte) redcon.Command
+//@   trusted redis wire encoding of the argument vector
+//@ extfunc github.com/youzan/ZanRedisDB/node.wrapWriteMergeCommandKK$1 func(cmd redcon.Command) (interface{}, error)
+//@   requires len(cmd.Args) >= 1
+//@   ensures ghost(proposals, kvn) != old(ghost(proposals, kvn)) ==> shape_wrapWriteMergeCommandKK(cmd)
+//@   modifies *
+//@ loop 1
+//@   invariant ghost(proposals, kvn) == old(ghost(proposals, kvn)) && len(cmd.Args) >= 2 && len(cmd.Args) - 1 <= common.MAX_BATCH_NUM && sameSlice(args, cmd.Args[1:len(cmd.Args)])
+//@ extfunc github.com/youzan/ZanRedisDB/node.wrapWriteMergeCommandKVKV$1 func(cmd redcon.Command) (interface{}, error)
+//@   requires len(cmd.Args) >= 1
+//@   ensures ghost(proposals, kvn) != old(ghost(proposals, kvn)) ==> shape_wrapWriteMergeCommandKVKV(cmd)
+//@   modifies *
+//@ loop 1
+//@   invariant ghost(proposals, kvn) == old(ghost(proposals, kvn)) && len(cmd.Args) >= 3 && (len(cmd.Args) - 1) % 2 == 0 && (len(cmd.Args) - 1) / 2 <= common.MAX_BATCH_NUM && sameSlice(args, cmd.Args[1:len(cmd.Args)])
+//@ func (kvsm *kvStoreSM) localPlsetCommand(cmd redcon.Command, ts int64) (interface{}, error)
+//@   inline
+//@   loop 1
+//@   invariant 1 <= i && i % 2 == 1 && (len(cmd.Args) - 1) % 2 == 0 && len(cmd.Args) >= 3
